@@ -308,6 +308,8 @@ def driver_program(arg):
              [Fraction(-5, 4) - i for i in range(N)]]
     rand = [[Fraction(rnd.choice([-1, 1]) * (2 * rnd.randint(0, 6) + 1), 4) for _ in range(N)] for _ in range(npts)]
     xs = fixed + rand
+    if 'Prod' in ops:      # degree 4: the exact stencil clause of the specification is stated on the half lattice
+        xs = [[Fraction(int(2 * v) | 1, 2) for v in x] for x in xs]
     if 'KL' in ops:
         xs = [[abs(v) + Fraction(1, 4) for v in x] for x in xs]
     if 'KLcc' in ops:
